@@ -6,13 +6,14 @@ export GOFLAGS=-mod=mod GOPROXY=off GOSUMDB=off GOTOOLCHAIN=local
 wt="$1"; x="$2"; dir="$3"; tag="${4:-seeddemo}"
 cd "$wt" || exit 2
 git checkout -q -- .
-cp SEED/$x/demo_test.go "$dir/zz_seed_${x}_demo_test.go"
+src=SEED/$x/demo_test.go; [ -f "$src" ] || src=SEED/$x/demo_test.go.txt
+cp "$src" "$dir/zz_seed_${x}_demo_test.go"
 go test -vet=off -count=1 -tags "$tag" -run 'Seed|Demo|DataURI' "./$dir" >/dev/null 2>&1; r0=$?
 git apply SEED/$x/patch.diff || { echo "RESULT $wt $x: patch does not apply"; rm -f "$dir/zz_seed_${x}_demo_test.go"; exit 1; }
 go build ./... || { echo "RESULT $wt $x: build fails"; }
 rm -f "$dir/zz_seed_${x}_demo_test.go"
 go test -vet=off -count=1 ./... >/dev/null 2>&1; rs=$?
-cp SEED/$x/demo_test.go "$dir/zz_seed_${x}_demo_test.go"
+cp "$src" "$dir/zz_seed_${x}_demo_test.go"
 go test -vet=off -count=1 -tags "$tag" -run 'Seed|Demo|DataURI' "./$dir" >/dev/null 2>&1; r1=$?
 rm -f "$dir/zz_seed_${x}_demo_test.go"
 git diff > SEED/$x/patch.rebased.diff
